@@ -163,6 +163,39 @@ func main() {
 		fmt.Fprintf(&b, "/-- `shouldEscape` also escapes these byte ranges (`|| ('X' <= b && b <= 'Y')`): letters a case-insensitive\n    header name cannot carry -/\n")
 		fmt.Fprintf(&b, "def escapeRanges : List (Nat × Nat) := [%s]\n", strings.Join(ranges, ", "))
 
+		// --- WrapRequest refuses identities whose values a header cannot carry: `if err := checkImpersonationValues(x); err != nil { return nil, err }`
+		wr := lib.FuncDecl(f, "dynamicImpersonatingRoundTripper", "WrapRequest")
+		if wr == nil {
+			lib.Fatalf("WrapRequest not found in %s", tfile)
+		}
+		checks := false
+		ast.Inspect(wr, func(n ast.Node) bool {
+			is, ok := n.(*ast.IfStmt)
+			if !ok || is.Init == nil || len(is.Body.List) == 0 {
+				return true
+			}
+			as, ok := is.Init.(*ast.AssignStmt)
+			if !ok || len(as.Rhs) != 1 {
+				return true
+			}
+			call, ok := as.Rhs[0].(*ast.CallExpr)
+			if !ok {
+				return true
+			}
+			id, ok := call.Fun.(*ast.Ident)
+			if !ok || id.Name != "checkImpersonationValues" {
+				return true
+			}
+			if ret, ok := is.Body.List[len(is.Body.List)-1].(*ast.ReturnStmt); ok && len(ret.Results) == 2 {
+				if r0, ok := ret.Results[0].(*ast.Ident); ok && r0.Name == "nil" {
+					checks = true
+				}
+			}
+			return true
+		})
+		fmt.Fprintf(&b, "/-- `WrapRequest` returns an error (forwards nothing) when `checkImpersonationValues(requestor)` fails -/\n")
+		fmt.Fprintf(&b, "def wrapRequestChecksValues : Bool := %v\n", checks)
+
 		// --- order of the filters in buildProxyHandlerChainFunc (first = innermost = applied last to a request)
 		pf := g.ParseFile("cmd/kube-gateway/app/proxy.go")
 		fd := lib.FuncDecl(pf, "", "buildProxyHandlerChainFunc")
